@@ -505,11 +505,13 @@ func (r *recReader) Clone(sr *io.SectionReader) (metadata.Reader, error) {
 }
 
 // ---------------------------------------------------------------------------------------------
-// gated chunk cache: lets the harness stop one prefetch goroutine either just before cache.Add (= before the
-// RLock section of readAndCache) or just before Commit (= after it), run other calls, and resume it.
+// gated chunk cache: lets the harness stop one prefetch goroutine at every interaction of readAndCache with its
+// cache writer - before cache.Add, at the first Write (the chunk is being copied: after the verifier was looked up,
+// before the digest comparison), before Commit, before Abort - run other calls, and resume it.
 
 type gate struct {
-	at      string // "add" | "commit"
+	at      string // "add" | "write" | "commit" | "abort"
+	hit     bool   // the gate was reached (stop points are one-shot)
 	reached chan struct{}
 	release chan struct{}
 }
@@ -556,20 +558,38 @@ type gateWriter struct {
 	gt *gate
 }
 
+func (w *gateWriter) stop(at string) {
+	if w.gt.at == at && !w.gt.hit {
+		w.gt.hit = true
+		close(w.gt.reached)
+		<-w.gt.release
+	}
+}
+
+func (w *gateWriter) Write(p []byte) (int, error) {
+	w.stop("write")
+	return w.Writer.Write(p)
+}
+
 func (w *gateWriter) Commit() error {
-	close(w.gt.reached)
-	<-w.gt.release
+	w.stop("commit")
 	return w.Writer.Commit()
+}
+
+func (w *gateWriter) Abort() error {
+	w.stop("abort")
+	return w.Writer.Abort()
 }
 
 // one prefetch goroutine stopped at a gate
 type inflight struct {
-	f, i   int
-	gt     *gate
-	done   chan error
-	data   []byte // bytes it fetched
-	atAdd  bool
-	pendID int
+	f, i    int
+	gt      *gate
+	done    chan error
+	data    []byte // bytes it fetched
+	checked bool   // its verification step (PfCheck) has run and let it pass: a Commit is outstanding
+	aborted bool   // its verification step has refused: only the Abort is outstanding
+	pendID  int
 }
 
 // ---------------------------------------------------------------------------------------------
@@ -816,7 +836,14 @@ func (w *world) resume(n int, emit func(string, Out)) {
 	close(fl.gt.release)
 	err := <-fl.done
 	w.stats["op.pfresume"]++
-	if fl.atAdd {
+	if fl.aborted {
+		// only cache writer Abort + return were outstanding: no sub-step of the model
+		if err == nil {
+			w.problems = append(w.problems, problem{"", "a prefetch stopped before Abort finished without error"})
+		}
+		return
+	}
+	if !fl.checked {
 		// verification step now, then (if it passed) the commit
 		if err != nil {
 			w.stats["result.pfresume.aborted"]++
@@ -1286,12 +1313,12 @@ func run(c Case) (res result) {
 				continue
 			}
 			at := "commit"
-			if o.D == "add" {
-				at = "add"
+			if o.D == "add" || o.D == "write" || o.D == "abort" {
+				at = o.D
 			}
 			key := w.cacheKey(o.F, o.I)
 			gt := w.gc.arm(key, at)
-			fl := &inflight{f: o.F, i: o.I, gt: gt, done: make(chan error, 1), atAdd: at == "add"}
+			fl := &inflight{f: o.F, i: o.I, gt: gt, done: make(chan error, 1)}
 			w.rec.take()
 			go func() { fl.done <- w.prefetchOne(fl.f, fl.i) }()
 			select {
@@ -1299,7 +1326,7 @@ func run(c Case) (res result) {
 				// finished without reaching the gate: cache hit, chunk read error, or aborted by the verification step
 				w.gc.disarm(key)
 				fs := w.rec.take()
-				if at == "commit" && len(fs) > 0 && !fs[0].Err && fs[0].N == fs[0].Want && err != nil {
+				if at != "add" && len(fs) > 0 && !fs[0].Err && fs[0].N == fs[0].Want && err != nil {
 					// the bytes were there: the verification step itself refused (decision already taken)
 					w.note(fs[0].IP)
 					w.stats["op.pfstart.aborted"]++
@@ -1321,13 +1348,22 @@ func run(c Case) (res result) {
 					w.note(fl.data)
 				}
 				w.flights = append(w.flights, fl)
-				if at == "commit" {
-					// its verification step has run and let it pass
-					w.stats["op.pfstart.commit"]++
+				// Where the RLock section of readAndCache (the model's PfCheck) lies relative to the stop point:
+				//  add    - not yet run
+				//  write  - chunk digest parses: not yet run (the comparison follows the copy);
+				//           digest does not parse: already run (verifier lookup failed, failure recorded, copy goes on unverified)
+				//  commit - run, passed;   abort - run, refused
+				w.stats["op.pfstart."+at]++
+				pfc := fmt.Sprintf("HAtom (PfCheck false %d%%N %d%%nat %s)", w.files[o.F], o.I, coqBytes(fl.data))
+				switch {
+				case at == "commit" || (at == "write" && w.tabs[o.F][o.I].DigID == 0):
+					fl.checked = true
 					w.pend = append(w.pend, fl)
-					emit(fmt.Sprintf("HAtom (PfCheck false %d%%N %d%%nat %s)", w.files[o.F], o.I, coqBytes(fl.data)), Out{Kind: "o", Res: "ok"})
-				} else {
-					w.stats["op.pfstart.add"]++
+					emit(pfc, Out{Kind: "o", Res: "ok"})
+				case at == "abort":
+					fl.aborted = true
+					w.stats["result.pfstart.abort.reached"]++
+					emit(pfc, Out{Kind: "o", Res: "err"})
 				}
 			}
 		case "pfresume":
@@ -1514,7 +1550,7 @@ func gen(r *hx.Rng) Case {
 			c.Ops = append(c.Ops, Op{Op: "probe", F: f, I: k})
 		case 8:
 			f, k := pickChunk()
-			c.Ops = append(c.Ops, Op{Op: "pfstart", F: f, I: k, D: []string{"add", "commit"}[r.Intn(2)]})
+			c.Ops = append(c.Ops, Op{Op: "pfstart", F: f, I: k, D: []string{"add", "write", "write", "commit", "abort"}[r.Intn(5)]})
 		case 9:
 			c.Ops = append(c.Ops, Op{Op: "pfresume", I: r.Intn(2)})
 		}
@@ -1569,10 +1605,58 @@ func corpus() []Case {
 			Ops: []Op{{Op: "pfstart", F: 0, I: 1, D: "add"}, {Op: "vtoc", D: "orig"}, {Op: "pfresume"}, {Op: "probe", F: 0, I: 1}, whole(20)}},
 		{Comp: "gzip", ChunkSize: 8, Files: []FileSpec{{"a", txt(20)}},
 			Ops: []Op{{Op: "pfstart", F: 0, I: 0, D: "commit"}, {Op: "pfstart", F: 0, I: 1, D: "add"}, {Op: "vtoc", D: "orig"}, whole(20), {Op: "pfresume", I: 1}, {Op: "pfresume"}, whole(20)}},
-		// min-chunk-size: several chunks in one member (pre-read callbacks), zstd
+		// min-chunk-size: several chunks in one member (see also stopCorpus below) (pre-read callbacks), zstd
 		{Comp: "gzip", ChunkSize: 8, MinChunk: 40, Files: []FileSpec{{"a", txt(20)}, {"b", txt(10)}}, Ops: []Op{{Op: "vtoc", D: "orig"}, {Op: "read", F: 1, Off: 0, Len: 10}, whole(20), {Op: "cache"}}},
 		{Comp: "zstd", ChunkSize: 8, Files: []FileSpec{{"a", txt(20)}}, Cors: []Cor{{Kind: "flip", F: 0, I: 1, Pos: 77}}, Ops: []Op{{Op: "cache"}, {Op: "vtoc", D: "orig"}, whole(20)}},
 	}
+}
+
+// stopCorpus: every stop point of a prefetch x {genuine, altered chunk} x {VerifyTOC(D), VerifyTOC(D')} with the
+// verification call, a skip-verify request and reads run while the prefetch is stopped; then resume, probe, re-read.
+func stopCorpus() []Case {
+	txt := make([]byte, 20)
+	for i := range txt {
+		txt[i] = byte('a' + i%7)
+	}
+	var out []Case
+	for _, at := range []string{"add", "write", "commit", "abort"} {
+		for _, altered := range []bool{false, true} {
+			for _, d := range []string{"orig", "bad"} {
+				c := Case{Comp: "gzip", ChunkSize: 8, Files: []FileSpec{{"a", txt}}}
+				if altered {
+					c.Cors = []Cor{{Kind: "replace", F: 0, I: 1, Alt: 1}}
+				}
+				if at == "abort" {
+					// Abort is only reached once the decision was taken
+					c.Ops = append(c.Ops, Op{Op: "vtoc", D: d})
+				}
+				c.Ops = append(c.Ops,
+					Op{Op: "pfstart", F: 0, I: 1, D: at},
+					Op{Op: "vtoc", D: d},
+					Op{Op: "read", F: 0, Off: 0, Len: 20},
+					Op{Op: "probe", F: 0, I: 1},
+					Op{Op: "pfresume"},
+					Op{Op: "probe", F: 0, I: 1},
+					Op{Op: "read", F: 0, Off: 0, Len: 20},
+					Op{Op: "vtoc", D: "orig"},
+					Op{Op: "read", F: 0, Off: 8, Len: 8},
+					Op{Op: "skip"},
+					Op{Op: "read", F: 0, Off: 0, Len: 20})
+				out = append(out, c)
+			}
+		}
+	}
+	// unparsable chunk digest: the RLock section comes before the copy
+	for _, pre := range []bool{false, true} {
+		c := Case{Comp: "gzip", ChunkSize: 8, Files: []FileSpec{{"a", txt}}, Cors: []Cor{{Kind: "tocnodigest", F: 0, I: 1}}}
+		if pre {
+			c.Ops = append(c.Ops, Op{Op: "vtoc", D: "actual"})
+		}
+		c.Ops = append(c.Ops, Op{Op: "pfstart", F: 0, I: 1, D: "write"}, Op{Op: "vtoc", D: "actual"}, Op{Op: "pfresume"},
+			Op{Op: "probe", F: 0, I: 1}, Op{Op: "vtoc", D: "actual"}, Op{Op: "read", F: 0, Off: 0, Len: 20})
+		out = append(out, c)
+	}
+	return out
 }
 
 func main() {
@@ -1610,7 +1694,7 @@ func main() {
 		return
 	}
 	n := 0
-	for _, c := range corpus() {
+	for _, c := range append(corpus(), stopCorpus()...) {
 		emit(c)
 		n++
 	}
